@@ -34,7 +34,7 @@ LINKS = ['inv1', 'inv2']
 # ---------------------------------------------------------------------------
 # ledger spec -> text
 
-def gen_ledger(rng, n_txn=None, with_queries=False, with_errors=False, rich=True):
+def gen_ledger(rng, n_txn=None, with_queries=False, with_errors=False, rich=True, repeats=False):
     """Generate a ledger *spec* (JSON-able).  Multi-currency, lots at cost with
     dates, sales reducing lots, price directives."""
     n_txn = n_txn if n_txn is not None else rng.randint(3, 12)
@@ -58,8 +58,16 @@ def gen_ledger(rng, n_txn=None, with_queries=False, with_errors=False, rich=True
         if kind == 'cash':
             cur = rng.choice(['USD', 'USD', 'EUR'])
             amt = D(rng.randint(1, 200000)) / 100
+            if repeats:
+                # values that repeat: equal amounts on several accounts, identical posting lines
+                amt = D(rng.choice([100, 100, 250, 40]))
             a, b = rng.sample(ACCOUNTS[:2] + ACCOUNTS[3:6] + ACCOUNTS[7:9], 2)
             P.append({'acct': a, 'units': f'{amt:.2f} {cur}'})
+            if repeats and rng.random() < 0.5:
+                P.append({'acct': a, 'units': f'{amt:.2f} {cur}'})
+                P.append({'acct': b, 'units': None})
+                dirs.append(t)
+                continue
             if rng.random() < 0.3:
                 part = (amt / 3).quantize(D('0.01'))
                 P.append({'acct': b, 'units': f'{-part:.2f} {cur}'})
@@ -163,14 +171,20 @@ _LEDGER_CACHE = {}
 
 def load_ledger(spec, copy=0):
     """Load a ledger spec.  `copy` selects an independent set of entry objects
-    (history world vs reference world), cached per process."""
+    (history world vs reference world), cached per process.  With spec['nometa']
+    the postings of transactions carry meta=None, as the postings of pad and
+    summarization entries and of programmatically built ledgers do."""
     text = render_ledger(spec)
-    key = (text, copy)
+    key = (text, copy, bool(spec.get('nometa')))
     hit = _LEDGER_CACHE.get(key)
     if hit is None:
         if len(_LEDGER_CACHE) > 64:
             _LEDGER_CACHE.clear()
         entries, errors, options = loader.load_string(text)
+        if spec.get('nometa'):
+            from beancount.core import data
+            entries = [e._replace(postings=[p._replace(meta=None) for p in e.postings])
+                       if isinstance(e, data.Transaction) else e for e in entries]
         hit = _LEDGER_CACHE[key] = (entries, errors, options, repr(entries))
     return hit
 
@@ -438,10 +452,29 @@ class VerifFault(query_compile.EvalFunction):
         return self.operands[0](row)
 
 
+class VerifCYield(query_compile.EvalFunction):
+    """verif_cyield(x, site): identity declared *pure*: with constant arguments the
+    compiler folds it, i.e. calls it during compilation - a yield point in the
+    middle of a compilation."""
+    __intypes__ = [types.Any, int]
+    pure = True
+
+    def __init__(self, context, operands):
+        super().__init__(context, operands, operands[0].dtype)
+
+    def __call__(self, row):
+        site = self.operands[1](row)
+        sim = current()
+        sim.expr_point(site, 0)
+        v = self.operands[0](row)
+        sim.expr_point(site, 1)
+        return v
+
+
 def _register_once():
     F = query_compile.FUNCTIONS
     for name, cls in (('verif_yield', VerifYield), ('verif_reenter', VerifReenter),
-                      ('verif_fault', VerifFault)):
+                      ('verif_fault', VerifFault), ('verif_cyield', VerifCYield)):
         if not any(c.__name__ == cls.__name__ for c in F.get(name, ())):
             F[name].append(cls)
 
